@@ -5,7 +5,7 @@
 (* action, the emissions / deliveries the contract expects (exact: EXT)    *)
 (* and what property C14 allows in the pre-state (classes per transport,   *)
 (* rule name, delivery allowed).  Compact encoding, decoded by gate.rs:    *)
-(*   step = <<op, emission, deliveries, awX, awY, rwX, rwY, ad, dx>>       *)
+(*   step = <<op, emission, deliveries, awX, awY, rwX, rwY, ad, dx, vid>>  *)
 (*   emission   "" | "Xp" | "Xc" | "Yp" | "Yc"   (transport + class)       *)
 (*   deliveries string over o(bserver) t(arget observer) b(ridged peer)    *)
 (*              l(istener) r(tcp listener)                                 *)
@@ -13,6 +13,7 @@
 (*   rw*        "N" NothingBeforeKeys | "E" NoClearEgress                  *)
 (*   ad         1 = C14 allows this step's inbound packet to be delivered  *)
 (*   dx         1 = the exact expectation (EXT) is meaningful for the step  *)
+(*   vid        1 = inbound RTP of this step carries the video payload type *)
 EXTENDS SrtpGate, Json
 
 ClsCode(c) == IF c = "protected" THEN "p" ELSE "c"
@@ -27,7 +28,7 @@ StepJ(s) == << s.op,
                Cat([i \in 1..Len(s.w) |-> s.w[i].tr \o ClsCode(s.w[i].cls)]),
                Cat([i \in 1..Len(s.d) |-> SinkCode(s.d[i])]),
                AwCode(s.aw["X"]), AwCode(s.aw["Y"]), RwCode(s.rw["X"]), RwCode(s.rw["Y"]),
-               IF s.ad THEN 1 ELSE 0, IF s.dx THEN 1 ELSE 0 >>
+               IF s.ad THEN 1 ELSE 0, IF s.dx THEN 1 ELSE 0, IF s.vid THEN 1 ELSE 0 >>
 
 Done == Len(hist) = MaxLen
 Replay == Done => PrintT(<<"REPLAY", ToJson([rx |-> req["X"], ry |-> req["Y"], rep |-> rep,
